@@ -620,21 +620,13 @@ func (e StdEng) Outer(a, b, prealloc Tensor) (err error) {
 		if err = a.Reshape(aShape[0], 1); err != nil {
 			return err
 		}
+		defer a.Reshape(aShape...)
 		if err = b.Reshape(1, bShape[0]); err != nil {
 			return err
 		}
+		defer b.Reshape(bShape...)
 
-		if err = e.MatMul(a, b, prealloc); err != nil {
-			return err
-		}
-
-		if err = b.Reshape(bShape...); err != nil {
-			return
-		}
-		if err = a.Reshape(aShape...); err != nil {
-			return
-		}
-		return nil
+		return e.MatMul(a, b, prealloc)
 
 	case pdo.IsRowMajor():
 		lda = pd.Shape()[1]
